@@ -8,10 +8,11 @@ if os.path.exists(final): shutil.rmtree(final)
 shutil.move(pend, final)
 m = json.load(open(f'{final}/meta.json'))
 prop = m.get('property', final[:3])
-m['confirmed_by'] = f'tools/confirm_seed.sh /tmp/seed2-{prop} {demo} : build ok, demo fails with the change, passes without, existing tests of the touched packages pass with it'
+rnd = 'seed3' if pend.startswith('pending3') else 'seed2'
+m['confirmed_by'] = f'tools/confirm_seed.sh /tmp/{rnd}-{prop} {demo} : build ok, demo fails with the change, passes without, existing tests of the touched packages pass with it'
 m['detected_by'] = det
 json.dump(m, open(f'{final}/meta.json', 'w'), indent=1)
-wt = f'/tmp/seed2-{prop}'
+wt = f'/tmp/{rnd}-{prop}'
 if os.path.isdir(wt):
     subprocess.run(['git', '-C', '/repo', 'worktree', 'remove', '--force', wt])
 print('kept', final)
